@@ -51,6 +51,8 @@ STATE_INVENTORY = {
 MEMO_INVENTORY = {
     "dask_array/_svg.py::svg": "pure rendering of a chunks tuple to an SVG string (arguments are hashable values; no configuration read inside)",
 }
+# containers captured in the closure of an import-time decorator/factory: construct -> reason
+CLOSURE_STATE_INVENTORY = {}
 # config keys readable on lowering paths: key -> reason (see c07.R07.6)
 LOWERING_CONFIG_KEYS = {
     "array.chunk-size": "reached only through Rechunk.chunks -> normalize_chunks: ArrayExpr.rechunk resolves 'auto'/byte-string chunk specs with normalize_chunks BEFORE building the node, so the node's _chunks operand (covered by its name) is already concrete and this read is not taken at lowering (checked dynamically: x.rechunk('auto') under two chunk-size settings gives two names)",
@@ -355,6 +357,61 @@ def r09_5(ctx):
             rr.exempt(cst, MEMO_INVENTORY[f.construct])
         for g, node, key in reads:
             ctx.finding(rr, f"{cst}::config {key}", f"memoised {f.qualname} reads configuration {key!r} (in {g.qualname}): the remembered result is stale after the setting changes", func=g, node=node)
+    # 2b. memo containers held in the closure of a decorator / factory that runs at import time
+    import_time_callers = set()  # qualnames of functions used as decorators or called at module level
+    for m in repo.units:
+        for f in m.functions.values():
+            for d in f.node.decorator_list:
+                dn = dotted(d.func if isinstance(d, ast.Call) else d)
+                if dn:
+                    r = repo.resolve_name(dn.split(".")[0], m, f.parent) if "." not in dn else repo.resolve_expr(d.func if isinstance(d, ast.Call) else d, m, f.parent)
+                    if r and r[0] == "func":
+                        import_time_callers.add(r[1].fq)
+        for stmt in m.tree.body:
+            for n in ast.walk(stmt) if not isinstance(stmt, (ast.FunctionDef, ast.AsyncFunctionDef, ast.ClassDef)) else []:
+                if isinstance(n, ast.Call):
+                    r = repo.resolve_expr(n.func, m, None) if isinstance(n.func, (ast.Name, ast.Attribute)) else None
+                    if r and r[0] == "func":
+                        import_time_callers.add(r[1].fq)
+    for f in repo.all_functions():
+        if f.fq not in import_time_callers:
+            continue
+        conts = {}
+        for n in body_walk(f.node):
+            tgt, val = None, None
+            if isinstance(n, ast.Assign) and len(n.targets) == 1 and isinstance(n.targets[0], ast.Name):
+                tgt, val = n.targets[0].id, n.value
+            elif isinstance(n, ast.AnnAssign) and isinstance(n.target, ast.Name) and n.value is not None:
+                tgt, val = n.target.id, n.value
+            if tgt and (isinstance(val, (ast.Dict, ast.List, ast.Set)) or (isinstance(val, ast.Call) and (dotted(val.func) or "").rsplit(".", 1)[-1] in ("dict", "list", "set", "defaultdict", "OrderedDict", "WeakValueDictionary", "deque"))):
+                conts[tgt] = n
+        if not conts:
+            continue
+        for g in f.module.functions.values():
+            if g.parent is not f:
+                continue
+            for name in conts:
+                if name in g.local_names and not any(isinstance(x, ast.Nonlocal) and name in x.names for x in body_walk(g.node)):
+                    continue
+                hits = []
+                for n in body_walk(g.node):
+                    if isinstance(n, ast.Subscript) and isinstance(n.ctx, (ast.Store, ast.Del)) and isinstance(n.value, ast.Name) and n.value.id == name:
+                        hits.append((n, "item store"))
+                    elif isinstance(n, ast.Call) and isinstance(n.func, ast.Attribute) and n.func.attr in MUTATORS and isinstance(n.func.value, ast.Name) and n.func.value.id == name:
+                        hits.append((n, f".{n.func.attr}()"))
+                if not hits:
+                    continue
+                cst = f"{f.construct}::closure {name}"
+                rr.inst(cst, mutated_in=g.qualname, how=hits[0][1])
+                if cst in CLOSURE_STATE_INVENTORY:
+                    rr.exempt(cst, CLOSURE_STATE_INVENTORY[cst])
+                    continue
+                ctx.finding(
+                    rr, cst,
+                    f"{f.qualname} runs at import time (decorator / module-level call) and its inner function {g.name} mutates the container {name!r} captured from it: "
+                    f"a process-wide memo outside the reviewed inventory - whatever it remembers is served to every later caller with an equal key",
+                    func=g, node=hits[0][0],
+                )
     # 3. class-level mutable containers mutated through instances anywhere (not only in hooks)
     class_cont = _class_level_containers(repo)
     for f in repo.all_functions():
